@@ -64,7 +64,8 @@ func convertObjectToASTNode(obj object.Object) ast.Node {
 		r.Token = token.Intern(token.STRING, obj.Value)
 		return &r
 	case object.Quote:
-		return obj.Node
+		// A copy: the same quoted tree unquoted at two places must be two nodes (map literal pairs are keyed by their key node).
+		return ast.ModifyNoOk(obj.Node, func(n ast.Node) ast.Node { return n })
 	default:
 		log.Warnf("convertObjectToASTNode: unsupported object type %T", obj)
 		return nil
